@@ -21,7 +21,7 @@ pub fn run() -> Result<String, String> {
         let mode = [Mode::Listen, Mode::PullSync, Mode::PullDeferred][c.choose(3)];
         let fin = [Fin::End, Fin::Err, Fin::Never][c.choose(3)];
         let fin = if mode != Mode::Listen && fin == Fin::Never { Fin::End } else { fin };
-        let spec = PuppetSpec { mode, late: c.chance(1, 3), fin, burst: if mode == Mode::Listen { c.choose(4) } else { 0 }, eager_end: c.chance(1, 4), per_pull: 1 + c.choose(2), on_stop: None, on_stop2: None, feedback: None, on_pull: None };
+        let spec = PuppetSpec { mode, late: c.chance(1, 3), fin, burst: if mode == Mode::Listen { c.choose(4) } else { 0 }, eager_end: c.chance(1, 4), per_pull: 1 + c.choose(2), on_stop: None, on_stop2: None, feedback: None, on_pull: None, backlog: false };
         let p: Arc<Puppet<i64>> = Puppet::new(&world, 0, "probe", spec, items_for(0, c.choose(5)));
         let probe = Probe::<i64>::new(&world, 0, "puppet", gen_probe_spec(&mut c, true));
         world.begin_step(0);
